@@ -46,6 +46,7 @@ type rollCfg struct {
 	restart  bool       // Stop/Start cycle in the middle (single writer)
 	maxAge   int32
 	conform  bool // replay every execution's filesystem call log on the real filesystem
+	variant  string
 }
 
 type rollObs struct {
@@ -70,6 +71,9 @@ func (c rollCfg) name() string {
 	}
 	if c.conform {
 		s += "/vfs-conformance"
+	}
+	if c.variant != "" {
+		s += "/" + c.variant
 	}
 	return s
 }
@@ -435,8 +439,9 @@ func init() {
 		reg(prop, rollCfg{writers: [][]string{{"a0"}, {"b0", "b1"}}, conform: true}, "qt", bb{1, 2, 0}, bb{2, 2, 0})
 	}
 	// C19: the same harness with I/O faults as deviations
-	reg("C19", rollCfg{writers: [][]string{{"a0", "a1", "a2"}}}, "qt", bb{1, 3, 2}, bb{2, 3, 3})
-	reg("C19", rollCfg{writers: [][]string{{"a0", "a1"}, {"b0", "b1"}}}, "qt", bb{1, 2, 2}, bb{2, 3, 2})
+	reg("C19", rollCfg{writers: [][]string{{"a0", "a1", "a2"}}}, "qt", bb{1, 3, 2}, bb{2, 3, 2})
+	reg("C19", rollCfg{writers: [][]string{{"a0", "a1", "a2"}}, variant: "3-faults"}, "t", bb{1, 2, 3}, bb{1, 2, 3})
+	reg("C19", rollCfg{writers: [][]string{{"a0", "a1"}, {"b0", "b1"}}}, "qt", bb{1, 2, 2}, bb{2, 2, 2})
 }
 
 var _ = sort.Strings
